@@ -9,10 +9,10 @@ import vlib
 from hyp import Violation
 
 PID = "C15"
-RULE = ("sequences (<=30 steps) of {def script function / new overload (int, string, untyped), add C++ function (int / string variant), global, const "
+RULE = ("sequences (<=30 steps) of {def script function / new overload (int, string, untyped), add C++ function (int / string variant), global, set_global (re-binding), const "
         "global, class definition, add user type, use(file), top-level local, get_state, set_state(any earlier snapshot), call of a long-lived function} "
         "checked after every step against a dictionary model: overload counts per name, function objects, globals (values of const ones), type names, "
-        "used files, locals, and a probe call of every modelled function with an int and a string argument. non-trivial = >=1 set_state to a "
+        "used files, locals, the value of every global binding created by `global`/set_global and never assigned in place, and a probe call of every modelled function with an int and a string argument. non-trivial = >=1 set_state to a "
         "snapshot that is not the latest state followed by a probe of something added or shadowed in between; distinct = distinct step sequences")
 
 SNAMES = ["zz_s1", "zz_s2", "zz_s3"]
@@ -28,6 +28,7 @@ step = st.one_of(
     st.fixed_dictionaries({"op": st.just("sdef"), "name": st.sampled_from(SNAMES), "variant": st.sampled_from(["int", "string", "untyped"]), "k": st.integers(1, 50)}),
     st.fixed_dictionaries({"op": st.just("cadd"), "name": st.sampled_from(CNAMES), "variant": st.sampled_from(["int", "string"]), "k": st.integers(1, 50)}),
     st.fixed_dictionaries({"op": st.just("global"), "name": st.sampled_from(GNAMES), "k": st.integers(1, 50)}),
+    st.fixed_dictionaries({"op": st.just("gset"), "name": st.sampled_from(GNAMES), "k": st.integers(1, 50), "as_string": st.booleans()}),
     st.fixed_dictionaries({"op": st.just("gconst"), "name": st.sampled_from(KNAMES), "k": st.integers(1, 50)}),
     st.fixed_dictionaries({"op": st.just("class"), "name": st.sampled_from(CLASSES), "k": st.integers(1, 50)}),
     st.fixed_dictionaries({"op": st.just("type"), "name": st.sampled_from(TNAMES), "k": st.integers(0, 3)}),
@@ -41,14 +42,33 @@ step = st.one_of(
 )
 
 
+def _reg():
+    return step.filter(lambda d: d["op"] in ("sdef", "cadd", "global", "gset", "gconst", "class", "type"))
+
+
+@st.composite
+def branching(draw):
+    """two sibling histories from one snapshot, each with the same number of registrations, then a restore from one to the other:
+    ... get, A.., get, set(first), B.., set(second) ..."""
+    pre = draw(st.lists(step, max_size=6))
+    a = draw(st.lists(_reg(), min_size=1, max_size=3))
+    b = draw(st.lists(_reg(), min_size=len(a), max_size=len(a)))
+    post = draw(st.lists(step, max_size=6))
+    return pre + [{"op": "get"}] + a + [{"op": "get"}, {"op": "set", "which": 0, "rel": 1}] + b + [{"op": "set", "which": 0, "rel": 0}] + post
+
+
 def strategy():
-    return st.fixed_dictionaries({"steps": st.lists(step, min_size=2, max_size=30)})
+    return st.fixed_dictionaries({"steps": st.one_of(st.lists(step, min_size=2, max_size=30), st.lists(step, min_size=2, max_size=30), branching())})
 
 
 class Model:
     def __init__(self):
         self.funcs = {}       # name -> {variant: k}
-        self.globals = {}     # name -> ("mutable", None) | ("const", k)
+        self.globals = {}     # name -> ("mutable", cell id) | ("const", k)
+        self.celltype = {}
+        self.cells = {}       # cell id -> rendering of the value, or None once it was assigned in place.  NOT part of a snapshot: a binding
+                              # (cell) is shared between the live state and the snapshots holding it, and the property does not say whether an
+                              # in-place assignment is visible through a snapshot, so such a cell's value is never compared again
         self.types = set()
         self.classes = {}     # name -> k
         self.used = set()
@@ -119,8 +139,24 @@ def check(c, ctx):
                 name = s_["name"]
                 # `global x = v` on an existing global assigns
                 rr = ctx.request({"cmd": "eval", "id": eid, "script": "global %s = %d\n0" % (name, s_["k"])})
-                M.globals[name] = ("mutable", None)
+                if name in M.globals and M.celltype[M.globals[name][1]] == "str":
+                    expect_err = True                            # no int -> string assignment
+                elif name in M.globals:
+                    M.cells[M.globals[name][1]] = None          # assigned in place
+                else:
+                    M.celltype[len(M.cells)] = "int"
+                    M.cells[len(M.cells)] = "i32:%d" % s_["k"]
+                    M.globals[name] = ("mutable", len(M.cells) - 1)
                 trace.append("global %s = %d" % (name, s_["k"]))
+            elif op == "gset":
+                # set_global re-binds the name to a new object (or creates it): a snapshot taken before keeps the old binding
+                name = s_["name"]
+                lit, rend = ("\"s%d\"" % s_["k"], 'str:"s%d"' % s_["k"]) if s_["as_string"] else ("%d" % s_["k"], "i32:%d" % s_["k"])
+                rr = ctx.request({"cmd": "eval", "id": eid, "script": "{ var t = %s; set_global(t, \"%s\") }\n0" % (lit, name)})
+                M.celltype[len(M.cells)] = "str" if s_["as_string"] else "int"
+                M.cells[len(M.cells)] = rend
+                M.globals[name] = ("mutable", len(M.cells) - 1)
+                trace.append("set_global(%s, %s)" % (lit, name))
             elif op == "gconst":
                 name = s_["name"]
                 expect_err = name in M.globals
@@ -164,7 +200,7 @@ def check(c, ctx):
             elif op == "set":
                 if not M.snaps:
                     continue
-                i = s_["which"] % len(M.snaps)
+                i = s_["which"] % len(M.snaps) if "rel" not in s_ else max(0, len(M.snaps) - 1 - s_["rel"])
                 older = M.snaps[i] != M.snapshot()
                 rr = ctx.request({"cmd": "c15", "id": eid, "op": "set_state", "snap": i})
                 M.restore(M.snaps[i])
@@ -194,6 +230,13 @@ def check(c, ctx):
             want_g = {n: ("mutable" if kind == "mutable" else "i32:%d" % val) for n, (kind, val) in M.globals.items()}
             if pr["globals"] != want_g:
                 raise Violation("after step %d `%s`: globals are %s, model says %s" % (k, trace[-1], pr["globals"], want_g), {"trace": trace})
+            for n, (kind, cell) in sorted(M.globals.items()):
+                if kind == "mutable" and M.cells[cell] is not None:
+                    r2 = ctx.request({"cmd": "eval", "id": eid, "script": n})
+                    got = None if "exc" in r2 else r2["res"]["r"]
+                    if got != M.cells[cell]:
+                        raise Violation("after step %d `%s`: global %s is %s, model says %s (bound by its creation / set_global, never assigned since)" % (
+                            k, trace[-1], n, got or "an error", M.cells[cell]), {"trace": trace})
             if sorted(pr["types"]) != sorted(M.types):
                 raise Violation("after step %d `%s`: type names are %s, model says %s" % (k, trace[-1], sorted(pr["types"]), sorted(M.types)), {"trace": trace})
             if sorted(pr["locals"]) != sorted(M.locals):
@@ -243,7 +286,8 @@ def main(tier):
     vlib.ensure_built("runner")
     ev = vlib.Evidence(PID, tier)
     ev.cov["rule"] = RULE
-    ev.assumptions = ["values of mutable globals are handles shared with snapshots by design and are not compared; const globals' values are",
+    ev.assumptions = ["a mutable global that was assigned in place (`global g = v` on an existing g) shares its object with snapshots by design: its value is not compared; "
+                      "values of bindings that were only created / re-bound (set_global) and of const globals are",
                       "re-adding an existing type name is neither required to fail nor to succeed; active binary modules are not exercised (no loadable module offline)"]
     n = 480 if tier == "quick" else 4000
     failures = hyp.run("c15", ev, tier, n)
